@@ -6,6 +6,7 @@
 From Coq Require Import List NArith.
 From RaftLog Require Import Base.Bytes Model.Types Model.Cache Model.Core Model.Recover Model.Run Model.Sys.
 From RaftLog Require Import Spec.Durable Proofs.NoPanic Proofs.CrashSteps Proofs.CrashRecover.
+From RaftLog Require Proofs.CodecFacts Proofs.ScanFacts Proofs.RestartSys Proofs.RestartCrash Proofs.RestartCrashImg.
 Import ListNotations.
 
 (* Finding F3: a vote that fills the chunk (chunk_max_records = 2) rotates; right after the
@@ -35,5 +36,40 @@ Theorem C05_process_crash_is_image : forall cfg z,
   zreach cfg z -> crash_image z (process_crash_image z).
 Proof. exact CrashRecover.process_crash_is_image. Qed.
 
+(* ---- the same for a store instance started on a NON-EMPTY directory (a restart, clean or
+   after an earlier crash): [dir_ok d] = file ids strictly increasing, synced <= written, every
+   file but the newest completely synced, and [dir_chained d]: every file that holds a complete
+   record starts with a state snapshot whose replay through the file's records ends in the next
+   file's head state (open_dir itself checks neither; every directory the crate writes has it).
+   For EVERY state reachable from opening such a directory, every crash image of it outside the
+   gap class opens under every configuration with truncation enabled, and the recovered store
+   never panics. *)
+Theorem C05_recovers_outside_known_from : forall cfg cfg' d z d',
+  RestartCrash.dir_ok d -> RestartSys.zreach_from cfg d z -> hist_wf z -> crash_image z d' ->
+  ~ gap_class d' -> c_truncate cfg' = true ->
+  exists y', open_dir cfg' d' = OpenOk y' /\ sys_ok y' /\
+             (forall ops res fin, run_ops y' ops = (res, fin) -> ~ In ResPanic res).
+Proof. exact RestartCrashImg.C05_recovers_outside_known_from. Qed.
+
+(* what open_dir leaves behind, for ANY sorted directory that opens: every file is a whole
+   number of well-formed records (at least one) *)
+Theorem C05_open_dir_whole : forall cfg d y,
+  disk_sorted d -> open_dir cfg d = OpenOk y ->
+  Forall (fun p => exists rs, f_data p = ScanFacts.encs rs /\ Forall CodecFacts.wf_record rs /\ rs <> []) (y_disk y).
+Proof. exact RestartCrash.open_dir_whole. Qed.
+
+(* non-vacuity: a directory left by a crash (newest file torn inside its head record) meets the
+   hypotheses and opens; the reopened store rotates, crashes in the middle of the worker's
+   batch, and that image opens again *)
+Theorem C05_from_nonvacuous :
+  (RestartCrash.dir_ok RestartCrashImg.torn_dir /\ length RestartCrashImg.torn_dir = 2%nat /\
+   exists z0, zinit RestartSys.demo_cfg RestartCrashImg.torn_dir = Some z0) /\
+  exists z, RestartSys.zreach_from RestartSys.demo_cfg RestartCrashImg.torn_dir z /\ hist_wf z /\
+            crash_image z (z_disk z) /\ ~ gap_class (z_disk z) /\
+            exists y', open_dir RestartSys.demo_cfg (z_disk z) = OpenOk y'.
+Proof. split; [exact RestartCrashImg.torn_dir_ok | exact RestartCrashImg.torn_dir_recovers]. Qed.
+
 Print Assumptions C05_refuted_gap.
 Print Assumptions C05_recovers_outside_known.
+Print Assumptions C05_recovers_outside_known_from.
+Print Assumptions C05_from_nonvacuous.
